@@ -50,6 +50,11 @@ def shapes_for(config):
         if other is not None:
             duplicate[other] = "zz"
         shapes.append(("dup-of-ok0", duplicate))
+        if "kind" in config["fields"]:
+            # a duplicate that carries a kind no written row has: rejected rows must not count for later checks either
+            other_kind = list(duplicate)
+            other_kind[config["fields"].index("kind")] = ""
+            shapes.append(("dup-of-ok0-with-another-kind", other_kind))
     if config["preset"] == "fixed" and "name" in config["fields"] and "id" in config["fields"]:
         # the same key with and without trailing blanks: equal once stored in fixed-width data
         base = dict(shapes)["ok0"]
@@ -161,6 +166,30 @@ def judge(case, part):
         part.fail(tag % "close-verdict", case, expected_close, closed)
     if rejected_any or expected_close is not None:
         part.nontrivial += 1
+    # the same rows through write_rows() in one single call (header rows included): it stops at the first rejected row,
+    # and what it has emitted by then is what the row-by-row writer emitted for those rows
+    emitted_by_row = case.get("_emitted", None)
+    bulk_target = io.StringIO(newline="")
+    bulk_raised = None
+    try:
+        bulk_writer = cutplace.Writer(make_cid(config, decls), bulk_target)
+        try:
+            bulk_writer.write_rows([list(r) for r in rows])
+        except errors.CutplaceError as error:
+            bulk_raised = type(error).__name__
+        try:
+            bulk_writer.close()
+        except errors.CutplaceError:
+            pass
+    except Exception as error:
+        bulk_raised = "foreign:" + type(error).__name__
+    part.transitions += 1
+    part.validated += 1
+    if not rejected_any:
+        if bulk_raised is not None or bulk_target.getvalue() != written:
+            part.fail(tag % "write_rows-differs-from-row-by-row", case, {"raised": None, "text": written}, {"raised": bulk_raised, "text": bulk_target.getvalue()})
+    elif bulk_raised is None or bulk_raised.startswith("foreign") or not written.startswith(bulk_target.getvalue()):
+        part.fail(tag % "write_rows-with-a-rejected-row", case, "a cutplace error at the first rejected row, nothing emitted beyond it", {"raised": bulk_raised, "text": bulk_target.getvalue()})
     # read back under a fresh CID
     fresh = make_cid(config, decls)
     back, raised = [], None
